@@ -942,6 +942,56 @@ func decodeScenarios(d *decodeCtx, thoroughTier bool) map[string]choice.Scenario
 		}
 		d.feed(c, in, 1, "S3 JSON mutation of "+s.name)
 	}
+	// a member next to its respelled twin (hyphens as underscores - the spelling other EAT documents use -, upper case),
+	// each with every replacement value: code that reconciles two spellings compares arbitrary decoded values
+	sc["s3.json-respelled-members"] = func(c *choice.Ctx) {
+		var js []decodeSeed
+		for _, s := range seeds {
+			if s.json {
+				js = append(js, s)
+			}
+		}
+		si := c.Choose("seed", len(js))
+		s := js[si]
+		var doc map[string]json.RawMessage
+		if err := json.Unmarshal(s.raw, &doc); err != nil {
+			return // not an object
+		}
+		names := make([]string, 0, len(doc))
+		for k := range doc {
+			names = append(names, k)
+		}
+		sort.Strings(names)
+		ni := c.Choose("member", len(names))
+		if !d.mine(ni + si) {
+			return
+		}
+		k := names[ni]
+		twin := []string{strings.ReplaceAll(k, "-", "_"), strings.ToUpper(k), strings.ReplaceAll(k, "-", "")}[c.Choose("respelling", 3)]
+		if twin == k {
+			return
+		}
+		v1 := string(doc[k])
+		if x := c.Choose("value", 1+len(jsonRepl)); x > 0 {
+			v1 = jsonRepl[x-1]
+		}
+		v2 := jsonRepl[c.Choose("twin-value", len(jsonRepl))]
+		var parts []string
+		for _, n := range names {
+			kb, _ := json.Marshal(n)
+			if n == k {
+				tb, _ := json.Marshal(twin)
+				if c.Choose("twin-first", 2) == 1 {
+					parts = append(parts, string(tb)+":"+v2, string(kb)+":"+v1)
+				} else {
+					parts = append(parts, string(kb)+":"+v1, string(tb)+":"+v2)
+				}
+				continue
+			}
+			parts = append(parts, string(kb)+":"+string(doc[n]))
+		}
+		d.feed(c, []byte("{"+strings.Join(parts, ",")+"}"), 1, "respelled twin of "+k+" in "+s.name)
+	}
 	// hostile heads and nesting (C06's family; also run for C05)
 	lens := []uint64{0, 1, 23, 24, 255, 256, 65535, 65536, 1 << 20, 1 << 24, 1<<31 - 1, 1 << 31, 1<<32 - 1, 1 << 32, 1<<63 - 1, 1<<64 - 1, 1 << 63, 1<<63 + 1, 1<<64 - 16, 1<<64 - 10, 1<<64 - 9, 1<<64 - 8, 1<<64 - 2}
 	sc["hostile-heads"] = func(c *choice.Ctx) {
@@ -1178,9 +1228,9 @@ func bytesRepeat(b []byte, n int) []byte {
 // plan lists (scenario, deviation bound) per tier.
 func decodePlan(thoroughTier bool) [][2]any {
 	if !thoroughTier {
-		return [][2]any{{"s0.seeds-first", -1}, {"s1.short-bytes", -1}, {"s2.byte-closure", -1}, {"s3.tree-closure", 4}, {"s3.json-closure", 4}, {"hostile-heads", -1}, {"nesting", -1}, {"after-large-input", -1}, {"json-repeated-names", -1}}
+		return [][2]any{{"s0.seeds-first", -1}, {"s1.short-bytes", -1}, {"s2.byte-closure", -1}, {"s3.tree-closure", 4}, {"s3.json-closure", 4}, {"hostile-heads", -1}, {"nesting", -1}, {"after-large-input", -1}, {"json-repeated-names", -1}, {"s3.json-respelled-members", -1}}
 	}
-	return [][2]any{{"s0.seeds-first", -1}, {"s1.short-bytes", -1}, {"s2.byte-closure", -1}, {"s3.tree-closure", -1}, {"s3.json-closure", -1}, {"hostile-heads", -1}, {"nesting", -1}, {"after-large-input", -1}, {"json-repeated-names", -1}, {"s2.head-pairs", -1}, {"s1.three-bytes", -1}}
+	return [][2]any{{"s0.seeds-first", -1}, {"s1.short-bytes", -1}, {"s2.byte-closure", -1}, {"s3.tree-closure", -1}, {"s3.json-closure", -1}, {"hostile-heads", -1}, {"nesting", -1}, {"after-large-input", -1}, {"json-repeated-names", -1}, {"s3.json-respelled-members", -1}, {"s2.head-pairs", -1}, {"s1.three-bytes", -1}}
 }
 
 // Workers maps property id -> worker body.
